@@ -251,7 +251,7 @@ class C18(core.Prop):
         n = shape['n']
         el = ['C', 'N', 'O', 'S', 'F', 'Cl'][:n]           # pairwise different: an RDKit atom is identified by its symbol
         charges = [sym_int('q%d' % i, -1, 1) for i in range(n)]
-        if shape['mode'] == 'embed' or (shape['n'] >= 4 and shape['keyset'] == 'sparse'):
+        if shape['mode'] == 'embed' or (shape['n'] >= 4 and shape['keyset'] == 'sparse') or len(shape['edges']) > 3:
             orders = [1 + (k % 2) for k in range(len(shape['edges']))]     # bond orders play no role for the index mapping
         else:
             orders = [sym_int('o%d' % k, 0, 4) for k in range(len(shape['edges']))]
